@@ -328,6 +328,24 @@ var propDeps = map[string][]string{
 	"C04b": {"C04"},
 }
 
+// propSupport: clauses of these properties are active inside the cone of the key property
+// without widening the cone (no additional roots).
+// Every property of the library is a statement about all inputs ("is rejected with an error",
+// "is delivered", "decodes to"): a function that panics on some input does not satisfy it there.
+// So inside the cone of each library property the safety obligations count as well (total
+// correctness of the functions the property is about), with the C07 clauses as support.
+var propSupport = map[string][]string{
+	"C01": {"C07"}, "C02": {"C07"}, "C03": {"C07"}, "C04": {"C07"}, "C04b": {"C07"}, "C05": {"C07"}, "C06": {"C07"}, "C08": {"C07"},
+	"C12": {"C07"}, "C14": {"C07"}, "C17": {"C07"}, "C20": {"C07"},
+	// C19: "parsing the traffic ... never ... stops the relayed stream": the parser goroutine the proxy
+	// starts must not panic
+	"C19": {"C07"},
+	// the same for the reader-to-sinks pipeline (C09) and the filter built on it (C10, C11):
+	// "after the source is exhausted the call returns" and the output statements hold for every
+	// byte stream only if the framing stage survives it
+	"C09": {"C07"}, "C10": {"C07"}, "C11": {"C07"},
+}
+
 // active reports whether a clause with the given property tags takes part in
 // the proof of the property this unit is generated for.
 func (u *Unit) active(props []string) bool {
@@ -335,7 +353,7 @@ func (u *Unit) active(props []string) bool {
 		return true
 	}
 	for _, p := range props {
-		if p == u.prop || contains(propDeps[u.prop], p) {
+		if p == u.prop || contains(propDeps[u.prop], p) || contains(propSupport[u.prop], p) {
 			return true
 		}
 	}
